@@ -37,9 +37,22 @@ fn value(key: &str, tag: u32) -> TensorData {
     let mut d = TensorData::new();
     d.set("tag", TensorValue::Scalar(ScalarValue::Int(i64::from(tag))));
     if key.starts_with("emb:") {
-        d.set("_embedding", TensorValue::Vector(vec![tag as f32; 384]));
+        // the shape of the value is a function of the tag: no vector at all, a vector the
+        // embedding slab refuses (kept in metadata only), or a slab-dimension vector
+        match emb_len(tag) {
+            0 => {},
+            n => d.set("_embedding", TensorValue::Vector(vec![tag as f32; n])),
+        }
     }
     d
+}
+
+fn emb_len(tag: u32) -> usize {
+    match tag % 5 {
+        0 => 0,
+        1 => 3,
+        _ => 384,
+    }
 }
 
 /// Decode a read value into its tag; `Err` describes a value nobody wrote.
@@ -51,14 +64,18 @@ fn read_tag(key: &str, d: &TensorData) -> Result<u32, String> {
     if key.starts_with("emb:") {
         match d.get("_embedding") {
             Some(TensorValue::Vector(v)) => {
-                if v.len() != 384 || v.iter().any(|x| *x != v[0]) {
+                if v.is_empty() || v.iter().any(|x| *x != v[0]) {
                     return Err(format!("vector of length {} is not uniform", v.len()));
                 }
                 if v[0] != t as f32 {
                     return Err(format!("scalar field says write {t} but the vector is from write {}", v[0]));
                 }
+                if v.len() != emb_len(t) {
+                    return Err(format!("write {t} carried a vector of length {} but a vector of length {} came back", emb_len(t), v.len()));
+                }
             },
-            other => return Err(format!("scalar field says write {t} but '_embedding' is {:?}", other.map(|_| "not a vector"))),
+            None if emb_len(t) == 0 => {},
+            other => return Err(format!("scalar field says write {t} (vector length {}) but '_embedding' is {:?}", emb_len(t), other.map(|_| "not a vector"))),
         }
     }
     Ok(t)
@@ -491,7 +508,7 @@ fn main() {
         rule: "lin: 2..5 (8) scripted threads of 1..5 put/get/delete/exists/scan ops on 1..3 contended keys of one key class (plain, emb: with a 384-dim vector whose every component and a sibling scalar carry the writer's tag, node:, table:, _cache:), every written value unique, plus a generated schedule; non-trivial = two operations on one key overlap in time and one is a write. durable: the same with put_durable/delete_durable and the store.durable.logged yield point; non-trivial = two overlapping durable writes to one key. stress: real threads. distinct = distinct generated case",
         assumptions: vec![
             "the scheduler owns the interleaving at the store.emb.* / store.durable.logged hooks and at operation boundaries only; other windows are reached only by the probabilistic stress part",
-            "embedding-class values always carry an _embedding vector (overwriting an embedding key with a value that has none keeps the old vector visible - a sequential quirk outside this property)",
+            "embedding-class values carry a slab-dimension vector, a vector of another dimension (kept in metadata only) or none, as a function of the write's tag; what is read back must be exactly one write's value",
             "histories longer than 40 operations are not checked (search bound)",
             "cache-class keys are excluded from the durable part",
         ],
